@@ -348,7 +348,7 @@ fn check_in(case: &Case, dir: &Path) -> CaseResult {
     std::fs::write(&case_path, serde_json::to_string(case).unwrap()).map_err(|e| e.to_string())?;
     let db_url = format!("sqlite://{}", db_path.display());
 
-    let exe = std::env::current_exe().map_err(|e| e.to_string())?;
+    let exe = std::env::current_exe().unwrap_or_else(|e| engine::harness_error(&format!("C15: current_exe: {e}")));
     let status = Command::new(exe)
         .arg("c15-worker")
         .arg(&case_path)
@@ -357,7 +357,7 @@ fn check_in(case: &Case, dir: &Path) -> CaseResult {
         .stdout(std::process::Stdio::null())
         .stderr(std::process::Stdio::null())
         .status()
-        .map_err(|e| format!("cannot run worker: {e}"))?;
+        .unwrap_or_else(|e| engine::harness_error(&format!("C15: cannot run the worker process: {e}")));
     let crash_at = idx(case.crash_raw, case.steps.len() + 1);
     let clean = crash_at >= case.steps.len();
     if clean {
